@@ -124,7 +124,8 @@ def simple_lets(t):
         if e['k'] == 'Index': return plain(e['lhs']) and plain(e['index'])
         if e['k'] == 'Call' and len(e['args']) == 2 and callee_decl(e) == 'std::ops::Index::index': return plain(e['args'][0]) and plain(e['args'][1])
         if e['k'] == 'Call' and e['args'] and (callee_decl(e) in ('std::clone::Clone::clone', 'std::string::ToString::to_string', 'std::ops::Deref::deref', 'std::convert::AsRef::as_ref',
-                                                              'std::borrow::ToOwned::to_owned') or (callee_name(e) or '').endswith('::to_string')): return plain(e['args'][0])
+                                                              'std::borrow::ToOwned::to_owned') or (callee_name(e) or '').split('::')[-1] in ('to_string', 'as_str', 'to_owned')): return plain(e['args'][0])
+        if e['k'] == 'Adt' and e['fields'] and not canon(e['adt']).startswith(('std::', 'core::', 'alloc::')): return all(plain(f['expr']) for f in e['fields'])
         return False
     out = {}
     for b in walk(t['body']):
@@ -169,8 +170,12 @@ class Atomizer:
             b = strip(e['lhs'])
             if b['k'] in ('VarRef', 'UpvarRef') and is_args_var(self.t, b['var']): return 'args.' + str(e.get('field_name', e['field']))
         while e['k'] == 'Call' and (callee_decl(e) in ('std::clone::Clone::clone', 'std::string::ToString::to_string', 'std::ops::Deref::deref', 'std::convert::AsRef::as_ref',
-                                                      'std::borrow::ToOwned::to_owned') or (callee_name(e) or '').endswith('::to_string')) and e['args']:
+                                                      'std::borrow::ToOwned::to_owned', 'std::convert::From::from', 'std::convert::Into::into') or (callee_name(e) or '').split('::')[-1] in ('to_string', 'as_str', 'to_owned')) and e['args']:
             e = strip(e['args'][0])
+        if e['k'] == 'Adt' and e['fields'] and not canon(e['adt']).startswith(('std::', 'core::', 'alloc::')) and len(e['fields']) >= 2:
+            # a small record of plain values (`Edge { from, to }`) reads like the tuple of its fields in declaration order
+            fs = sorted(e['fields'], key=lambda f: f['idx'])
+            return '(' + ','.join(self.norm(f['expr']) for f in fs) + ')'
         if e['k'] in ('VarRef', 'UpvarRef'):
             if e['var'] in self.roles: return self.roles[e['var']]
             if e['var'] in self.lets: return self.norm(self.lets[e['var']])
